@@ -190,6 +190,170 @@ theorem down_wdata_beats (c : Cfg) (hw : c.hasW = true) (hpos : 0 < c.ratio) (in
 theorem place_lt (ratio : Nat) (rev : Bool) (j : Nat) (h : j < ratio) : place ratio rev j < ratio := by
   unfold place; split <;> omega
 
+/-! ### down-converter: read data regrouping -/
+
+theorem place_inj (ratio : Nat) (rev : Bool) (i j : Nat) (hi : i < ratio) (hj : j < ratio)
+    (h : place ratio rev i = place ratio rev j) : i = j := by
+  unfold place at h; split at h <;> omega
+
+/-- the read-data regrouping register of the down-converter: `ws` = words taken from the controller so far,
+`nd` = wide words delivered to the user so far -/
+def RInv (c : Cfg) (u : UpS) (ws : List Nat) (nd : Nat) : Prop :=
+  u.regs.length = c.ratio ∧ u.demux < c.ratio ∧
+  (if u.strobeAll then
+     u.demux = 0 ∧ ws.length = c.ratio * (nd + 1) ∧
+     ∀ i, i < c.ratio → (u.regs.getD (place c.ratio c.reverse i) (0, 0)).1 = ws.getD (c.ratio * nd + i) 0
+   else
+     ws.length = c.ratio * nd + u.demux ∧
+     ∀ i, i < u.demux → (u.regs.getD (place c.ratio c.reverse i) (0, 0)).1 = ws.getD (c.ratio * nd + i) 0)
+
+theorem rinv_init (c : Cfg) (h : 0 < c.ratio) : RInv c (UpS.init c.ratio) [] 0 := by
+  simp [RInv, UpS.init, h]
+
+/-- one clock with the user ready: a controller word is always taken; a wide word is delivered exactly when the
+register is complete, and it is the next `ratio` controller words, word `i` of the group in chunk `place i` -/
+theorem rup_step (c : Cfg) (u : UpS) (ws : List Nat) (nd : Nat) (v : Bool) (d : Nat) (h2 : 2 ≤ c.ratio)
+    (h : RInv c u ws nd) :
+    u.sinkReady true = true ∧
+    RInv c (u.step c.ratio c.reverse v (d, 0) true) (if v then ws ++ [d] else ws) (if u.strobeAll then nd + 1 else nd) ∧
+    (u.strobeAll = true → ∀ i, i < c.ratio →
+      (u.regs.map (·.1)).getD (place c.ratio c.reverse i) 0 = ws.getD (c.ratio * nd + i) 0) := by
+  obtain ⟨hlen, hdm, hrest⟩ := h
+  refine ⟨by simp [UpS.sinkReady], ?_, ?_⟩
+  · have hget_set_self : ∀ (k : Nat), k < c.ratio →
+        ((u.regs.set (place c.ratio c.reverse k) (d, 0)).getD (place c.ratio c.reverse k) (0, 0)).1 = d := by
+      intro k hk
+      have hp := place_lt c.ratio c.reverse k hk
+      rw [List.getD_eq_getElem?_getD, List.getElem?_set_self (by omega)]
+      rfl
+    have hget_set_ne : ∀ (k i : Nat), k < c.ratio → i < c.ratio → i ≠ k →
+        (u.regs.set (place c.ratio c.reverse k) (d, 0)).getD (place c.ratio c.reverse i) (0, 0) =
+          u.regs.getD (place c.ratio c.reverse i) (0, 0) := by
+      intro k i hk hi hne
+      have : place c.ratio c.reverse k ≠ place c.ratio c.reverse i := fun e => hne (place_inj _ _ _ _ hi hk e.symm)
+      rw [List.getD_eq_getElem?_getD, List.getElem?_set_ne this, ← List.getD_eq_getElem?_getD]
+    cases hv : v
+    · -- nothing offered: a pending wide word (if any) is delivered
+      cases hs : u.strobeAll
+      · simp only [hs, Bool.false_eq_true, if_false] at hrest ⊢
+        simpa [RInv, UpS.step, UpS.sinkReady, hs, hlen, hdm] using hrest
+      · simp only [hs, if_true] at hrest ⊢
+        obtain ⟨h0, hl, _⟩ := hrest
+        simp [RInv, UpS.step, UpS.sinkReady, hs, hlen, h0, hl]
+        omega
+    · simp only [if_true]
+      by_cases hlast : u.demux = c.ratio - 1
+      · -- the word completes the register
+        have hsf : u.strobeAll = false := by
+          cases hs : u.strobeAll
+          · rfl
+          · simp only [hs, if_true] at hrest; omega
+        simp only [hsf, Bool.false_eq_true, if_false] at hrest ⊢
+        obtain ⟨hl, hreg⟩ := hrest
+        have hstep : u.step c.ratio c.reverse true (d, 0) true =
+            { demux := 0, strobeAll := true, regs := u.regs.set (place c.ratio c.reverse u.demux) (d, 0) } := by
+          simp [UpS.step, UpS.sinkReady, hsf, hlast]
+        rw [hstep]; unfold RInv; dsimp only
+        refine ⟨by simp [hlen], by omega, ?_⟩
+        simp only [if_true]
+        refine ⟨trivial, by rw [List.length_append, hl, hlast]; simp; rw [Nat.mul_add]; omega, ?_⟩
+        intro i hi
+        by_cases hid : i = u.demux
+        · subst hid
+          rw [hget_set_self _ hdm, List.getD_eq_getElem?_getD, ← hl, List.getElem?_append_right (Nat.le_refl _)]
+          simp
+        · rw [hget_set_ne _ _ hdm hi hid, hreg i (by omega), List.getD_eq_getElem?_getD, List.getD_eq_getElem?_getD,
+            List.getElem?_append_left (by omega)]
+      · have hstep : u.step c.ratio c.reverse true (d, 0) true =
+            { demux := u.demux + 1, strobeAll := false, regs := u.regs.set (place c.ratio c.reverse u.demux) (d, 0) } := by
+          simp [UpS.step, UpS.sinkReady, hlast]
+        rw [hstep]; unfold RInv; dsimp only
+        refine ⟨by simp [hlen], by omega, ?_⟩
+        simp only [Bool.false_eq_true, if_false]
+        cases hs : u.strobeAll
+        · simp only [hs, Bool.false_eq_true, if_false] at hrest ⊢
+          obtain ⟨hl, hreg⟩ := hrest
+          refine ⟨by rw [List.length_append, hl]; simp; omega, ?_⟩
+          intro i hi
+          by_cases hid : i = u.demux
+          · subst hid
+            rw [hget_set_self _ hdm, List.getD_eq_getElem?_getD, ← hl, List.getElem?_append_right (Nat.le_refl _)]
+            simp
+          · rw [hget_set_ne _ _ hdm (by omega) hid, hreg i (by omega), List.getD_eq_getElem?_getD, List.getD_eq_getElem?_getD,
+              List.getElem?_append_left (by omega)]
+        · simp only [hs, if_true] at hrest ⊢
+          obtain ⟨h0, hl, _⟩ := hrest
+          refine ⟨by rw [List.length_append, hl, h0]; simp, ?_⟩
+          intro i hi
+          have hi0 : i = 0 := by omega
+          subst hi0
+          have := hget_set_self 0 (by omega)
+          rw [h0, this, List.getD_eq_getElem?_getD, Nat.add_zero, ← hl, List.getElem?_append_right (Nat.le_refl _)]
+          simp
+  · intro hs i hi
+    simp only [hs, if_true] at hrest
+    have := hrest.2.2 i hi
+    have hp := place_lt c.ratio c.reverse i hi
+    simp only [List.getD_eq_getElem?_getD, List.getElem?_map] at this ⊢
+    rw [← this]
+    cases hg : u.regs[place c.ratio c.reverse i]? <;> simp [hg]
+
+/-- run the down-converter; collect the controller read words taken and the wide words delivered to the user -/
+def drrun (c : Cfg) : DState → List DIn → List Nat × List (List Nat)
+  | _, [] => ([], [])
+  | s, i :: is =>
+    let o := (dstep c s i).2
+    let rest := drrun c (dstep c s i).1 is
+    ((if i.toRValid && o.toRReady then i.toRData :: rest.1 else rest.1),
+     (if o.rValid && i.rReady then o.rData :: rest.2 else rest.2))
+
+/-- **Down-converter, read data.** With a user that always accepts read data, under every controller-side timing:
+every controller read word is taken (none can be lost), and the `m`-th wide word delivered to the user consists of
+controller words `ratio·m … ratio·m + ratio − 1`, word `i` of the group in chunk `place i` - regrouped in order,
+none dropped or repeated. -/
+theorem down_rdata_regrouped (c : Cfg) (h2 : 2 ≤ c.ratio) (hr : c.hasR = true) (ins : List DIn)
+    (hrdy : ∀ i ∈ ins, i.rReady = true) (s : DState) (ws0 : List Nat) (nd0 : Nat) (h : RInv c s.rup ws0 nd0) :
+    ∀ m, m < (drrun c s ins).2.length → ∀ i, i < c.ratio →
+      ((drrun c s ins).2.getD m []).getD (place c.ratio c.reverse i) 0 =
+        (ws0 ++ (drrun c s ins).1).getD (c.ratio * (nd0 + m) + i) 0 := by
+  induction ins generalizing s ws0 nd0 with
+  | nil => intro m hm; simp [drrun] at hm
+  | cons e es ih =>
+    intro m hm i hi
+    have hre : e.rReady = true := hrdy e (by simp)
+    obtain ⟨hsr, hinv, hdel⟩ := rup_step c s.rup ws0 nd0 e.toRValid e.toRData h2 h
+    have hrup' : (dstep c s e).1.rup = s.rup.step c.ratio c.reverse e.toRValid (e.toRData, 0) true := by
+      simp [dstep, hr, hre]
+    have hready : (dstep c s e).2.toRReady = true := by simp [dstep, hr, hre, hsr]
+    have hvalid : (dstep c s e).2.rValid = s.rup.strobeAll := by simp [dstep, hr]
+    have hdata : (dstep c s e).2.rData = s.rup.regs.map (·.1) := by simp [dstep]
+    rw [← hrup'] at hinv
+    have ih' := ih (fun j hj => hrdy j (by simp [hj])) (dstep c s e).1 _ _ hinv
+    simp only [drrun, hready, Bool.and_true, hvalid, hre, hdata] at hm ⊢
+    -- the words taken so far, re-associated
+    have hassoc : (if e.toRValid = true then ws0 ++ [e.toRData] else ws0) ++ (drrun c (dstep c s e).1 es).1 =
+        ws0 ++ (if e.toRValid = true then e.toRData :: (drrun c (dstep c s e).1 es).1 else (drrun c (dstep c s e).1 es).1) := by
+      cases e.toRValid <;> simp
+    rw [hassoc] at ih'
+    cases hs : s.rup.strobeAll
+    · simp only [hs, Bool.false_eq_true, if_false] at hm ih' ⊢
+      exact ih' m hm i hi
+    · simp only [hs, if_true] at hm ih' ⊢
+      cases m with
+      | zero =>
+        simp only [List.getD_cons_zero, Nat.add_zero]
+        rw [hdel hs i hi]
+        have hl : ws0.length = c.ratio * (nd0 + 1) := by
+          have := h.2.2; simp only [hs, if_true] at this; exact this.2.1
+        rw [List.getD_eq_getElem?_getD, List.getD_eq_getElem?_getD, List.getElem?_append_left (by rw [hl, Nat.mul_add]; omega)]
+      | succ m =>
+        simp only [List.length_cons] at hm
+        have := ih' m (by omega) i hi
+        simp only [List.getD_cons_succ]
+        rw [this]
+        have e1 : nd0 + 1 + m = nd0 + (m + 1) := by omega
+        rw [e1]
+
 /-- **Up-converter, byte enables.** In the wide word handed to the controller, a chunk whose bit is not in the latched
 select mask has all its byte enables cleared, and a selected chunk keeps the user's byte enables and data: a write can
 only update bytes of the narrow words that were part of the burst, under the user's own enables. -/
